@@ -339,6 +339,9 @@ impl Prop for C15 {
                 if crate::props::c05::in_known_hang_class(c, &truth) {
                     return Outcome::fail("Hang:mixed-integer+unbounded+free-var", ctx(String::new()));
                 }
+                if matches!(truth, Verdict::Infeasible) && crate::props::c05::hang_prone(c, &truth) {
+                    return Outcome::fail("Hang:integer-infeasible+unbounded-relaxation+free-var", ctx(String::new()));
+                }
                 if crate::props::c05::hang_prone(c, &truth) {
                     return Outcome::fail("Hang:unbounded-optimal-face+free-var", ctx(String::new()));
                 }
